@@ -110,7 +110,7 @@ Ltac inv_res H := injection H as <- <- <-.
 (* case-splitting tactic: destructs every scrutinee appearing in the hypothesis H : local_step .. = (..) *)
 Ltac blast H :=
   unfold local_step in H; cbn in H;
-  unfold db_step, snap_step, txn_step, iter_step, read_sched in H; cbn in H;
+  unfold db_step, snap_step, txn_step, iter_step, read_sched, release_muts in H; cbn in H;
   repeat (match type of H with
           | context [match nth_error ?l ?h with _ => _ end] => destruct (nth_error l h) eqn:?
           | context [match dmode ?d with _ => _ end] => destruct (dmode d) eqn:?
@@ -176,7 +176,7 @@ Proof.
   intros db h m db' ms o [Hbg Htx] M H.
   assert (Hd : all_done (dtxns db)) by (apply Htx; congruence).
   destruct m; unfold local_step in H; cbn in H;
-    unfold db_step, snap_step, txn_step, iter_step, read_sched in H; rewrite ?M in H;
+    unfold db_step, snap_step, txn_step, iter_step, read_sched, release_muts in H; rewrite ?M in H;
     blast H; inv_res H; unfold closed_outcome; cbn; rw_eqs; cbn; rw_eqs;
     repeat split; try reflexivity; try congruence; try (intros; discriminate);
     try (exfalso; eapply nth_open_txn; eassumption).
@@ -189,7 +189,7 @@ Lemma local_ro : forall db h m db' ms o,
   (recv m = RDb -> takes_write_lock m = true -> db' = db /\ ms = [] /\ o = ErrReadOnly) /\
   (recv m = RDb -> db_read m = true -> ms = [] /\ o = Ok /\ dmode db' = dmode db) /\
   (m = DbClose -> o = Ok /\ dmode db' = Closed) /\
-  (ms = [] \/ (m = DbClose /\ dbg db = true /\ dmode db = RSwitched)).
+  (ms = [] \/ ((m = DbClose \/ m = ItRelease) /\ dmode db = RSwitched)).
 Proof.
   intros db h m db' ms o [Hbg Htx] M H.
   assert (Hd : all_done (dtxns db)) by (apply Htx; intros E; rewrite E in M; discriminate).
@@ -198,25 +198,52 @@ Proof.
   { clear -Hd. induction Hd as [|t l Ht _ IH]; cbn; [reflexivity|]. now rewrite Ht, IH. }
   destruct (dmode db) eqn:MD; try discriminate M;
     destruct m; unfold local_step in H; cbn in H;
-    unfold db_step, snap_step, txn_step, iter_step, read_sched, close_muts in H; rewrite ?MD, ?Hc in H;
+    unfold db_step, snap_step, txn_step, iter_step, read_sched, release_muts, close_muts in H; rewrite ?MD, ?Hc in H;
     blast H; inv_res H; cbn;
     repeat split; try reflexivity; try congruence; try (intros; discriminate); auto;
     try (exfalso; eapply nth_open_txn; eassumption);
     try (left; reflexivity);
     try (match goal with E : dbg db = true |- _ => rewrite Hbg in E by auto; discriminate end);
-    try (right; repeat split; congruence).
+    try (right; split; [auto | congruence]).
   exfalso. assert (E : true = false) by (apply Hbg; auto). discriminate E.
 Qed.
 
 (* ---------------------------------------------------------------- quiet DBs issue no mutation *)
 
 (* closed, opened read-only, or switched to read-only with seek compaction off and background work drained *)
+(* the iterator pins the current version (or none): releasing it removes no file *)
+Definition pins_current (v : nat) (i : iter) : bool :=
+  match ik i with
+  | IEmpty => true
+  | IReal _ => irel i || Nat.eqb (iver i) v
+  end.
+
 Definition quietb (db : dbrec) : bool :=
   match dmode db with
   | Closed | ROpened => true
-  | RSwitched => negb (dseek db) && negb (dbg db)
+  | RSwitched => negb (dseek db) && negb (dbg db) && forallb (pins_current (dver db)) (diters db)
   | RW => false
   end.
+
+Lemma forallb_upd : forall A (p : A -> bool) l i x, forallb p l = true -> p x = true -> forallb p (upd l i x) = true.
+Proof.
+  induction l as [|a l IH]; intros [|i] x H Hx; cbn in *; auto;
+    apply andb_true_iff in H; destruct H as [H1 H2]; apply andb_true_iff; split; auto.
+Qed.
+
+Lemma forallb_snoc : forall A (p : A -> bool) l x, forallb p l = true -> p x = true -> forallb p (l ++ [x]) = true.
+Proof. intros. rewrite forallb_app. cbn. now rewrite H, H0. Qed.
+
+Lemma forallb_nth : forall A (p : A -> bool) l i x, forallb p l = true -> nth_error l i = Some x -> p x = true.
+Proof. intros A p l i x H E. rewrite forallb_forall in H. apply H. eapply nth_error_In; eauto. Qed.
+
+Lemma pins_no_release : forall v i o, pins_current v i = true -> ik i = IReal o ->
+  negb (irel i) && negb (Nat.eqb (iver i) v) = true -> False.
+Proof.
+  intros v i o P K H. unfold pins_current in P. rewrite K in P.
+  apply andb_true_iff in H. destruct H as [H1 H2]. apply negb_true_iff in H1. apply negb_true_iff in H2.
+  rewrite H1, H2 in P. discriminate.
+Qed.
 
 Lemma local_quiet : forall db h m db' ms o,
   db_ok db -> quietb db = true -> local_step db h m = (db', ms, o) -> ms = [] /\ quietb db' = true.
@@ -230,20 +257,29 @@ Proof.
   - (* ROpened *)
     assert (B : dbg db = false) by auto.
     destruct m; unfold local_step in H; cbn in H;
-      unfold db_step, snap_step, txn_step, iter_step, read_sched, close_muts in H; rewrite ?MD, ?Hc, ?B in H;
+      unfold db_step, snap_step, txn_step, iter_step, read_sched, release_muts, close_muts in H; rewrite ?MD, ?Hc, ?B in H;
       blast H; inv_res H; cbn; rewrite ?MD; auto;
       try (exfalso; eapply nth_open_txn; eassumption).
-  - (* RSwitched, seeks off, drained *)
-    apply andb_true_iff in Q. destruct Q as [Q1 Q2].
+  - (* RSwitched, seeks off, drained, every live iterator pins the current version *)
+    apply andb_true_iff in Q. destruct Q as [Q12 Q3]. apply andb_true_iff in Q12. destruct Q12 as [Q1 Q2].
     apply negb_true_iff in Q1. apply negb_true_iff in Q2.
     destruct m; unfold local_step in H; cbn in H;
-      unfold db_step, snap_step, txn_step, iter_step, read_sched, close_muts in H; rewrite ?MD, ?Hc, ?Q1, ?Q2 in H;
-      blast H; inv_res H; cbn; rewrite ?MD, ?Q1, ?Q2; auto;
-      try (exfalso; eapply nth_open_txn; eassumption).
+      unfold db_step, snap_step, txn_step, iter_step, read_sched, release_muts, close_muts in H;
+      rewrite ?MD, ?Hc, ?Q1, ?Q2 in H;
+      blast H; inv_res H; cbn; rewrite ?MD, ?Q1, ?Q2; cbn;
+      try (exfalso; eapply nth_open_txn; eassumption);
+      try (exfalso; eapply pins_no_release; [eapply forallb_nth; eassumption | eassumption | eassumption]);
+      (split; [reflexivity|]); auto;
+      try (apply forallb_snoc; [assumption | unfold pins_current; cbn; rewrite ?PeanoNat.Nat.eqb_refl, ?orb_true_r; reflexivity]);
+      try (apply forallb_upd; [assumption |
+             match goal with E : nth_error (diters db) _ = Some ?i |- _ =>
+               pose proof (forallb_nth _ _ _ _ _ Q3 E) as P; unfold pins_current in *; cbn in *;
+               destruct (ik i); cbn; auto end]).
+    match goal with E : irel _ = false, P : _ || _ = true |- _ => rewrite E in P; exact P end.
   - (* Closed *)
     assert (B : dbg db = false) by auto.
     destruct m; unfold local_step in H; cbn in H;
-      unfold db_step, snap_step, txn_step, iter_step, read_sched, close_muts in H; rewrite ?MD, ?Hc, ?B in H;
+      unfold db_step, snap_step, txn_step, iter_step, read_sched, release_muts, close_muts in H; rewrite ?MD, ?Hc, ?B in H;
       blast H; inv_res H; cbn; rewrite ?MD; auto;
       try (exfalso; eapply nth_open_txn; eassumption).
 Qed.
@@ -253,7 +289,8 @@ Proof.
   intros db [Hbg _] Q. unfold drain_db, quietb in *.
   destruct (dmode db) eqn:MD; try discriminate Q.
   - rewrite Hbg; auto.
-  - apply andb_true_iff in Q. destruct Q as [_ Q2]. apply negb_true_iff in Q2. now rewrite Q2.
+  - apply andb_true_iff in Q. destruct Q as [Q12 _]. apply andb_true_iff in Q12. destruct Q12 as [_ Q2].
+    apply negb_true_iff in Q2. now rewrite Q2.
   - rewrite Hbg; auto.
 Qed.
 
@@ -269,7 +306,7 @@ Qed.
 Lemma local_iter_released : forall db h i m,
   nth_error (diters db) h = Some i -> irel i = true -> ierr i = Ok -> it_move m = true ->
   local_step db h m =
-    (set_iters db (upd (diters db) h (mkIter (ik i) true ErrIterReleased (ihasr i))), [], ErrIterReleased).
+    (set_iters db (upd (diters db) h (mkIter (ik i) true ErrIterReleased (ihasr i) (iver i))), [], ErrIterReleased).
 Proof.
   intros db h i m H R E M. destruct m; try discriminate M; unfold local_step; cbn; rewrite H; cbn;
     unfold iter_step; rewrite E, R; reflexivity.
